@@ -4,7 +4,7 @@ from wa.mir import AnchorMissing, ShapeNotRecognised, callee_of, operand_alias
 from wa.expr import Exprs, show_expr, subexprs, strip_refs, data_slice, root_local
 from wa.flow import forward_states
 from wa.cond import dominating_facts, specialise
-from wa.implied import implying_edges, known_atoms, known_switch_facts, feasible_reach
+from wa.implied import implying_edges, known_atoms, known_switch_facts, feasible_reach, edge_truths
 from wa import loopform
 from wa.linear import linear
 
@@ -289,6 +289,73 @@ def _guards_after(b, guards, a):
     return out
 
 
+def empty_indicators(b, ex, bb):
+    """Locals known to be "empty" on entry to bb: an Option local known to be None (`x.is_none()`,
+    `!x.is_some()`, `match x { None => .. }`) or a bool local known to be false.  The fallback send is
+    guarded by such a "nothing sent yet" indicator, whatever it stores (the board, the move, a flag)."""
+    out = set()
+    for d, v in known_atoms(b, ex, bb):
+        if d[0] == "call" and d[2] and ((d[1].endswith("::is_none") and v is True) or (d[1].endswith("::is_some") and v is False)):
+            l = root_local(d[2][0])
+            if l is not None and b.local_ty(l).startswith("std::option::Option<"):
+                out.add(l)
+    for d, vals, excl in known_switch_facts(b, ex, bb):
+        if d[0] == "discr":
+            l = root_local(d[1])
+            if l is not None and b.local_ty(l).startswith("std::option::Option<") and (vals == [0] or (vals is None and excl == [1])):
+                out.add(l)
+    for s in b.normal:
+        if s not in b.reachable or b.term(s)["k"] != "switch":
+            continue
+        for tg, tr in edge_truths(b, s).items():
+            if not ((tg == bb and len(b.pred.get(bb, [])) == 1) or b.edge_dominates((s, tg), bb)):
+                continue
+            d = strip_refs(ex.switch_discr(s))
+            while d[0] == "un" and d[1] == "Not":
+                d, tr = strip_refs(d[2]), not tr
+            if d[0] == "var" and b.local_ty(d[1]) == "bool" and d[1] in b.names and tr is False:
+                out.add(d[1])
+    return out
+
+
+def sent_indicators(b, ex):
+    """The "a move has been sent" indicators of the root driver: Option / bool locals whose emptiness
+    guards a send."""
+    out = set()
+    for bb, t in b.iter_calls():
+        if (callee_of(t) or "").endswith("Sender::<T>::send"):
+            out |= empty_indicators(b, ex, bb)
+    return out
+
+
+def record_sites(b, ex):
+    """[(loc, local, label)]: writes that make a sent-indicator non-empty (`x = Some(..)`, `flag = true`),
+    and `Some(..)` written to any Option<BoardState> place (the classic best_move)."""
+    ind = sent_indicators(b, ex)
+    ind_tys = {b.local_ty(l) for l in ind if b.local_ty(l) != "bool"}
+    out = []
+    for loc, st in b.iter_stmts():
+        if st["k"] != "assign":
+            continue
+        p = st["place"]
+        l = p["local"]
+        if _is_best_move_place(b, p) or (not p["proj"] and b.local_ty(l) in ind_tys):
+            e = ex.rvalue(st["rv"], loc)
+            if e[0] == "agg" and e[2] == "Some":
+                tgt = l
+                if p["proj"]:
+                    from wa.mir import alias_of
+                    r, mode, pr = alias_of(b, l)
+                    if mode == "ref" and not pr:
+                        tgt = r         # written through `&mut best_move`
+                out.append((loc, tgt, "%s%s = Some(..)" % ("*" if p["proj"] else "", b.lname(l))))
+        elif not p["proj"] and l in ind and b.local_ty(l) == "bool":
+            e = ex.rvalue(st["rv"], loc)
+            if e == ("const", True):
+                out.append((loc, l, "%s = true" % b.lname(l)))
+    return out
+
+
 def _fallback_ok(b, ex, bb):
     """R7.3 shape for a send that is not in the accept region."""
     why = []
@@ -299,13 +366,19 @@ def _fallback_ok(b, ex, bb):
             under_ot = True
     if not under_ot:
         why.append("not under `out_of_time(start, t) == true`")
-    none_ok = any(d[0] == "call" and d[1].endswith("::is_none") and v is True and
-                  b.local_ty(root_local(d[2][0]) or 0) == "std::option::Option<board::BoardState>" for d, v in known_atoms(b, ex, bb))
-    if not none_ok:
-        # `if let None = best_move` / `match best_move { None => .. }`
-        for d, vals, excl, s_, tg in dominating_facts(b, ex, bb):
-            if d[0] == "discr" and b.local_ty(root_local(d[1]) or 0) == "std::option::Option<board::BoardState>" and (vals == [0] or (vals is None and excl == [1])):
-                none_ok = True
+    # under "nothing sent yet": an indicator that is empty here and that is filled where moves are sent
+    recorded = {l for _, l, _lab in record_sites(b, ex)}
+    loops_ = b.loops()
+    none_ok = False
+    for l in empty_indicators(b, ex, bb):
+        if l not in recorded:
+            continue
+        # it is never emptied again once the search runs: its other definitions lie outside the loops
+        rec_locs = {x[0] for x in record_sites(b, ex)}
+        resets = [dl for dl, kd in b.reaching().all_sites(l)
+                  if kd == "whole" and dl not in rec_locs and any(dl[0] in body_ for body_ in loops_.values())]
+        if not resets:
+            none_ok = True
     if not none_ok:
         why.append("not under `best_move.is_none()`")
     args = ex.call_args(bb)
@@ -358,17 +431,16 @@ def r7_1(ctx):
     for a in absb:
         abs_exprs.add(ex.call_expr(b.term(a), b.term_loc(a)))
     sites = []   # (loc, kind, label)
+    rec_at = {loc: lab for loc, l, lab in record_sites(b, ex)}
     for loc, st in b.iter_stmts():
         if st["k"] != "assign":
             continue
         p = st["place"]
         l = p["local"]
-        if _is_best_move_place(b, p):
-            e = ex.rvalue(st["rv"], loc)
-            if e[0] == "agg" and e[2] == "Some":
-                sites.append((loc, "best_move", "%s%s = Some(..)" % ("*" if p["proj"] else "", b.lname(l))))
+        if loc in rec_at:
+            sites.append((loc, "best_move", rec_at[loc]))
             continue
-        if p["proj"]:
+        if _is_best_move_place(b, p) or p["proj"]:
             continue
         e = ex.rvalue(st["rv"], loc)
         nd = len([1 for _, k in b.reaching().all_sites(l) if k == "whole"])
@@ -405,7 +477,7 @@ def r7_1(ctx):
             continue
         ctx.ob(key, False, b.where(loc),
                "`%s` can execute with a value from a sub-search that the clock aborted: it is not dominated by the not-expired edge of an out_of_time(start, t) re-read after alpha_beta_search" % label)
-    ctx.floor("accept sites", len(sites), 7)
+    ctx.floor("accept sites", len(sites), 6)     # score, record, 2 sends, pv, info
     ctx.floor("accept guards", len(set().union(*after_guards.values())) if after_guards else 0, 1)
 
 
@@ -610,6 +682,8 @@ def _value_origins(b, ex, e, seen):
             for dl, x in _value_origins(b, ex, de, seen):
                 out.append((dl if dl is not None else dloc, x))
         return out
+    if e[0] == "call" and e[1].endswith("as std::clone::Clone>::clone") and "Vec<" in e[1] and len(e[2]) == 1:
+        return _value_origins(b, ex, strip_refs(e[2][0]), seen)        # a clone of the list is the list
     return [(None, e)]
 
 
@@ -888,13 +962,12 @@ def r12_4(ctx):
                 # iterator must be moves.iter().skip(1) and moves[0] searched before the loop
                 off = loopform.iter_start_offset(ex, src[2][0])
                 ctx.ob("alpha_beta_search:rest-loop-starts-at-second-move", off == 1, b.where(b.term_loc(h)),
-                       "the loop over the remaining moves starts at index 1 (`.skip(1)` / `[1..]`): first index visited = %s" % off)
+                       "the loop over the remaining moves starts at index 1 (`.skip(1)` / `[1..]` / the tail of `split_first()`): first index visited = %s" % off)
                 first = []
                 for bb in rec - body_:
                     a = ex.call_args(bb)
                     bpos = one_param(b, "&board::BoardState") - 1
-                    e = strip_refs(a[bpos])
-                    if e[0] == "call" and e[1].endswith("::index") and e[2][1] == ("const", 0):
+                    if loopform.element_index(a[bpos]) == 0:
                         first.append(bb)
                 ctx.ob("alpha_beta_search:first-move-searched-first", len(first) == 1 and b.node_dominates(first[0], h), b.where(b.term_loc(first[0])) if first else b.file,
                        "moves[0] is searched with the full window before the loop over the rest")
@@ -1127,9 +1200,10 @@ def r12_3(ctx):
         for bb, t in b.iter_calls():
             if not t["dest"]["proj"]:
                 writes.append((b.term_loc(bb), t["dest"]["local"], ex.call_expr(t, b.term_loc(bb))))
+        carriers = return_carriers(b)
         for loc, l, e in sorted(writes):
-            if l not in b.names or b.local_ty(l) != "i32":
-                continue
+            if l not in b.names or b.local_ty(l) != "i32" or l in carriers:
+                continue        # (a write to a result carrier, `break 'node v`, is a return: judged above)
             nwhole = len([1 for _, kd in b.reaching().all_sites(l) if kd == "whole"]) + (1 if l <= b.arg_count else 0)
             if nwhole < 2:
                 continue        # the one initialisation of a variable is not a raise
@@ -1470,15 +1544,12 @@ def r7_6(ctx):
     # best_move recorded => a move was sent in the same region
     sends = [bb for bb, t in b.iter_calls() if (callee_of(t) or "").endswith("Sender::<T>::send")]
     n = 0
-    for loc, st in b.iter_stmts():
-        if st["k"] == "assign" and _is_best_move_place(b, st["place"]):
-            e = ex.rvalue(st["rv"], loc)
-            if e[0] == "agg" and e[2] == "Some":
-                n += 1
-                from .hash import control_equivalent
-                ok = any(control_equivalent(b, loc[0], sb) for sb in sends)
-                ctx.ob("get_best_move:best_move-recorded-implies-sent#%d" % n, ok, b.where(loc),
-                       "`%s = Some(..)` happens exactly when a move is sent on the channel (the fallback relies on `best_move.is_none()` meaning 'nothing sent yet')" % b.lname(st["place"]["local"]))
+    from .hash import control_equivalent
+    for loc, l, lab in record_sites(b, ex):
+        n += 1
+        ok = any(control_equivalent(b, loc[0], sb) for sb in sends)
+        ctx.ob("get_best_move:best_move-recorded-implies-sent#%d" % n, ok, b.where(loc),
+               "`%s` happens exactly when a move is sent on the channel (the fallback relies on the indicator being empty meaning 'nothing sent yet')" % lab)
     ctx.floor("best_move recordings", n, 1)
 
 
